@@ -292,7 +292,7 @@ func canonD(v ssa.Value, d int) string {
 		}
 		return x.Value.ExactString()
 	case *ssa.Parameter:
-		return x.Name()
+		return paramCanon(x)
 	case *ssa.FreeVar:
 		return "free:" + x.Name()
 	case *ssa.Convert:
@@ -466,4 +466,33 @@ func singleStore(al *ssa.Alloc) ssa.Value {
 		return val
 	}
 	return nil
+}
+
+// paramCanon names a parameter independently of its source name: the receiver is "recv", an argument vector
+// ([][]byte) is "cmd", every other parameter is "p<index>".
+func paramCanon(x *ssa.Parameter) string {
+	fn := x.Parent()
+	if fn == nil {
+		return x.Name()
+	}
+	if x.Type().String() == "[][]byte" {
+		n := 0
+		for _, p := range fn.Params {
+			if p.Type().String() == "[][]byte" {
+				n++
+			}
+		}
+		if n == 1 {
+			return "cmd"
+		}
+	}
+	for i, p := range fn.Params {
+		if p == x {
+			if i == 0 && fn.Signature.Recv() != nil {
+				return "recv"
+			}
+			return fmt.Sprintf("p%d", i)
+		}
+	}
+	return x.Name()
 }
